@@ -380,13 +380,14 @@ CLAIMED["C29"] = (
     "Proof that link following in the CAS file system view is bounded and well-directed: open starts openFollowing with zero hops; "
     "openFollowing follows only relative targets, resolves them beside the link, and the number of hops still allowed is non-negative and "
     "strictly decreases at every recursive call (a termination measure stated as a call-site obligation), so a symlink loop ends in an "
-    "error — this exposed the unbounded recursion repaired by the fix commit recorded in known_findings.json. dir.ReadDir: a call with n <= 0 "
-    "lists every directory, file and symlink (counting invariants), a call with n > 0 returns at most n entries; that successive chunked calls "
-    "continue and end with io.EOF does NOT hold and is a RECORDED KNOWN FINDING (region n > 0, canary; demonstrated in findings/C29). "
-    "Kernel-only: findNode path resolution, Stat and the file/dir info types are not under contract; a tree whose child digests are "
-    "missing from the tree (nil directories) is outside the precondition.",
-    COMMON_NOTE + "findNode, openFile, openDir and the info constructors are opaque; pb message structs are modelled field by field.",
-    "contract-based deductive verification (termination measure as call-site obligation, counting invariants, known-finding region + SMT)", "6/C29")
+    "error (exposed the unbounded recursion repaired in /repo). findNode returns a file or a symlink only for the last path component and "
+    "with exactly the name asked. dir.ReadDir satisfies io/fs.ReadDirFile: it returns the rest of the listing (all directories, files and "
+    "symlinks, counting invariants) from the current offset, at most n entries for n > 0, advances the offset by what it returned, and "
+    "reports the end as io.EOF exactly when nothing is left (exposed the restart-from-zero defect, first recorded, then repaired), with every "
+    "nil/index obligation discharged. Kernel-only: Stat and the file/dir info types are not under contract; a tree whose child digests are "
+    "missing from the tree is outside the precondition.",
+    COMMON_NOTE + "openFile, openDir and the info constructors are opaque; pb message structs are modelled field by field.",
+    "contract-based deductive verification (termination measure as call-site obligation, counting invariants, exact postconditions + SMT)", "6/C29")
 
 NOT_APPLICABLE = {
     "C05": "liveness / whole-run exit status under all schedules: no per-call contract expresses it (safety fragment is under C04)",
